@@ -90,6 +90,9 @@ int main(int argc, char **argv)
       report_data("getdata_d0", f, D, gd_getdata64(D, f, 0, 0, 0, 64, GD_FLOAT64, dbuf), dbuf, 8);
       report_data("getdata_i3", f, D, gd_getdata64(D, f, 0, 3, 0, 17, GD_INT64, ibuf), ibuf, 8);
       report_data("getdata_c", f, D, gd_getdata64(D, f, 1, 1, 1, 5, GD_COMPLEX128, dbuf), dbuf, 16);
+      report_data("getdata_u2", f, D, gd_getdata64(D, f, 0, 2, 0, 23, GD_FLOAT64, dbuf), dbuf, 8);
+      report_data("getdata_u5", f, D, gd_getdata64(D, f, 0, 5, 0, 21, GD_FLOAT64, dbuf), dbuf, 8);
+      report_data("getdata_u7", f, D, gd_getdata64(D, f, 0, 7, 0, 19, GD_COMPLEX128, dbuf), dbuf, 16);
       report("getdata_null", f, D, gd_getdata64(D, f, 0, 0, 2, 0, GD_NULL, NULL));
       if (eof > 8) report_data("getdata_tail", f, D, gd_getdata64(D, f, 0, eof - 5, 0, 16, GD_FLOAT64, dbuf), dbuf, 8);
       report("getdata_far", f, D, gd_getdata64(D, f, 0, 1000000, 0, 9, GD_FLOAT64, dbuf));
